@@ -35,6 +35,9 @@ class AbstractOp(LinearOperator):
     def _matmat(self, X):
         if not bool(dim_eq(X.shape[0], self.shape[1])):
             raise ValueError("AbstractOp._matmat: dimension mismatch")
+        from vcgen.colfam import CF
+        if isinstance(X, CF):
+            return CF("mat", self.shape[0], X.K, np.promote_types(self.dtype, X.dtype), term=alg.mmul(self.Mg, X._mterm()))
         dt = np.promote_types(self.dtype, X.dtype)
         return AMat(alg.mmul(self.Mg, X.term), (self.shape[0],) + tuple(X.shape[1:]), dt, fresh=False)  # may alias X (Identity)
 
